@@ -347,7 +347,9 @@ def main(argv=None):
         assumptions=["flags are symbolic only on leaves (harness subclass of Tensor with a forking `constant` property)"],
         outside=["programs outside the list"],
     )
-    return common.main(PROP, "harness.C10", cs, args.tier, args.seed, describe, extra_evidence=extra, deadline_s=900)
+    from symnp import selftest
+
+    return common.main(PROP, "harness.C10", cs, args.tier, args.seed, describe, preflight=selftest.run, extra_evidence=extra, deadline_s=900)
 
 
 if __name__ == "__main__":
